@@ -9,6 +9,41 @@ def quadratic(n, op=" + ", lp="( ", rp=" )"):
         x = "a" + op + lp + x + rp + (op + "a") * max(n - k - 2, 0)
     return x
 
+# height amplifiers: level(k) = SLOT( "(" level(k-1) ")" + a + a + ... ), a tall chain whose first primary is the
+# parenthesised previous level, placed in one child position of one node kind. The parser's recursion stays below its limit
+# (about 3 per level + the chain), the TREE grows by `chain` per level: whatever bounds the nesting has to count the height
+# of EVERY child position of every node kind.
+SLOTS = {
+    "tern_cond": lambda t: t + " ? a : a",
+    "tern_mid": lambda t: "c ? " + t + " : a",
+    "tern_else": lambda t: "c ? a : " + t,
+    "setter_rhs": lambda t: "a = " + t,
+    "compound_rhs": lambda t: "a += " + t,
+    "infix_rhs": lambda t: "a * (" + t + ")",
+    "prefix": lambda t: "-(" + t + ")",
+    "prefix_word": lambda t: "not (" + t + ")",
+    "postfix": lambda t: "(" + t + ") ++",
+    "notin": lambda t: t + " not in [a]",
+    "call_arg": lambda t: "f(" + t + ")",
+    "call_arg2": lambda t: "f(a, " + t + ")",
+    "list_elem": lambda t: "[" + t + "]",
+    "list_elem2": lambda t: "[a, " + t + ", a]",
+    "map_key": lambda t: "{" + t + " : a}",
+    "map_val": lambda t: "{a : " + t + "}",
+    "map_val2": lambda t: "{a : a, b : " + t + "}",
+}
+
+def amplifier(slot, levels, chain):
+    x = "a"
+    for _ in range(levels):
+        x = SLOTS[slot]("(" + x + ")" + " + a" * chain)
+    return x
+
+def amplifier_families():
+    for slot in SLOTS:
+        for levels, chain in ((2, 40), (3, 100), (3, 200), (30, 60), (40, 120)):
+            yield "amp_" + slot, levels * 1000 + chain, amplifier(slot, levels, chain)
+
 def deep_families(ns):
     fams = {
         "paren": lambda n: "(" * n + "1" + ")" * n,
@@ -49,7 +84,8 @@ class P:
     rule = ("PARSE (parse_expression, then expr() and describe() of a returned AST) of: all sequences of <=2 symbols and a "
             "slice of the 3-symbol sequences over the 47-symbol class alphabet, random symbol strings, single-character "
             "corruptions of valid programs, and 21 deep/long families (nesting, prefix runs, right-assoc chains, ternary "
-            "chains, name runs, left-deep sums, calls) at n in {10,100,1000,10000,100000}, each deep case in its own "
+            "chains, name runs, left-deep sums, calls) at n in {10,100,1000,10000,100000}, 17 height amplifiers (a tall chain nested "
+            "through every child position of every node kind: levels x chain in {2x40, 3x100, 3x200, 30x60, 40x120}), each deep case in its own "
             "process on a 2 MiB thread. Non-trivial = distinct input of more than one character.")
     assumptions = ["stack use is measured on a 2 MiB thread (Rust's default for spawned threads) in a debug build"]
     trusted_extra = []
@@ -76,6 +112,7 @@ class P:
                 corr.append(progs.corrupt(rng, s))
         cases += flow.mk_cases("corrupt", ["PARSE:" + hx(s) for s in corr])
         deep = [("PARSE:" + hx(s), (name, n)) for name, n, s in deep_families(ns)]
+        deep += [("PARSE:" + hx(s), (name, n)) for name, n, s in amplifier_families()]
         cases += flow.mk_cases("!deep", deep)
         return cases
 
